@@ -23,6 +23,7 @@ Surfaces == {"json", "print", "diagnostics", "gob", "wire", "errortext", "loglin
 Ops == {"login", "loginBadPassword", "getTicket", "getTicketUnknown", "serviceVerify", "decryptTicket", "krbPrivRoundTrip", "destroy",
         "keyLookupMiss",        \* key look-ups that fail although the keytab holds keys of that principal (other kvno / etype), directly and through the service
         "embedTicket",
+        "basicAuth",            \* service.KRB5BasicAuthenticator on right and wrong passwords, passwords with ':' '@' and a backslash in them, values that are no pair
         "loginOddKDC",          \* logins at KDCs that answer with client referrals (also in a loop), every pre-authentication error, other KRB-ERRORs, a reply to another request, a dead connection
         "diagnoseMisfit",       \* Client.Diagnostics / Print of clients whose keytab does not fit their realm or configuration (another realm, another spelling, another etype, no KDC, no entries)
         "changePassword"}       \* Client.ChangePasswd against the password-change service, answered by the service or by an attacker (refusal, reflection of the request, forged and damaged replies)          \* a ticket that was decrypted in place is embedded in other messages (additional tickets, KDC replies, ticket sequences) and encoded
@@ -42,6 +43,7 @@ Effect(op, h) ==
     [] op = "decryptTicket" -> Add(h, "ticket", {"svckey"})
     [] op = "krbPrivRoundTrip" -> Add(h, "krbpriv", {"subkey"})
     [] op = "keyLookupMiss" -> Add(h, "error", {})                          \* the error names what was asked for, never what the keytab holds
+    [] op = "basicAuth" -> Add(Add(h, "error", {}), "log", {})                   \* what it says about a refused pair never quotes the pair
     [] op = "loginOddKDC" -> Add(Add(h, "error", {}), "log", {})                 \* what the library says about such answers names realms and codes, never what the credentials hold
     [] op = "embedTicket" -> Add(h, "ticket", {"svckey"})
     [] op = "diagnoseMisfit" -> Add(h, "error", {})                         \* the complaints name what is missing, never what the keytab holds
